@@ -258,6 +258,10 @@ def element_parsing(
             end_sl = element.end_note.start.t
             part.add(element, start=start_sl, end=end_sl)
 
+        # Unrecognised interpretations are not musical elements
+        elif isinstance(element, KernElement):
+            continue
+
         # Handle other elements
         else:
             # Do not repeat structural elements if they are being added to the same part.
